@@ -141,7 +141,7 @@ Definition find_all_index (offsets : list Z) (len m : Z) : outcome Z :=
   then unwrap "find_all_regex: first_match.start() occurs on a cluster boundary" (position m offsets 0)
   else Error "match filtered out (not on a cluster boundary)".
 
-(* proposed repair (proposed/C10-find-all-end-match.diff): the end of the string is a boundary too *)
+(* proposed repair (proposed/C10-find-all-empty-match.diff): the end of the string is a boundary too *)
 Definition find_all_index_fixed (offsets : list Z) (len m : Z) : outcome Z :=
   if is_boundary offsets len m
   then unwrap "find_all_regex: first_match.start() occurs on a cluster boundary" (position m (offsets ++ [len]) 0)
